@@ -58,7 +58,8 @@ Clause(r, e) ==
   IF r.res # e.res THEN
        (IF e.a = "Write" /\ r.res = "Ok" /\ e.res = "Refused" THEN "spurious_refusal"
         ELSE IF e.a = "Write" /\ r.res = "Refused" /\ e.res = "Ok" THEN "note_cow_instead_of_refusal"
-        ELSE IF e.a = "NewTable" THEN "ragged_outcome"
+        ELSE IF e.a = "NewTable" \/ (e.a = "SetAttr" /\ r.res = "Err") THEN "ragged_outcome"
+        ELSE IF e.a = "SetAttr" THEN "setattr_error"
         ELSE IF e.a = "Lookup" THEN "lookup"
         ELSE IF e.a = "Write" THEN "write_error" ELSE "outcome")
   ELSE IF ToSetOf(o.live) # P.live THEN "liveness"
